@@ -816,20 +816,25 @@ pub fn check_step(cx: &StepCtx) -> Vec<Violation> {
             }
         }
     }
+    // the rates the pre-state defines (bonded / (supply + requests), 1 for an empty pool) — derived
+    // here, not read from the hub, so that a hub that reports or stores a stale rate is still judged
+    // against the rate the property speaks of
+    let tb = |q: &[u128; 8]| if pre.delegated > 0 && q[2] + q[3] > 0 { rate_of(q[2], pre.supply_b, pre.batch.1) } else { q[0] };
+    let ts = |q: &[u128; 8]| if pre.delegated > 0 && q[2] + q[3] > 0 { rate_of(q[3], pre.supply_s, pre.batch.2) } else { q[1] };
     if is_tx && ok {
         if let (Op::Tx { sender, funds, .. }, Some(qpre)) = (op, pre.q) {
             let pay: u128 = funds.iter().map(|f| f.1).sum();
             match kind {
                 "hub.bond" => {
                     let minted = post.bal_b.get(sender).unwrap_or(&0) - pre.bal_b.get(sender).unwrap_or(&0);
-                    let nofee = mul_floor(pay, D, qpre[0]);
+                    let nofee = mul_floor(pay, D, tb(&qpre));
                     if minted > nofee {
-                        out.push(v("C03", "bond-minted-above-price", format!("bond {} at rate {} minted {} > {}", pay, qpre[0], minted, nofee)));
-                        out.push(v("C05", "negative-fee", format!("bond {} at rate {} minted {} > {}", pay, qpre[0], minted, nofee)));
+                        out.push(v("C03", "bond-minted-above-price", format!("bond {} at rate {} minted {} > {}", pay, tb(&qpre), minted, nofee)));
+                        out.push(v("C05", "negative-fee", format!("bond {} at rate {} minted {} > {}", pay, tb(&qpre), minted, nofee)));
                     }
-                    if qpre[0] >= pre.thr && minted != nofee {
-                        out.push(v("C03", "bond-minted-ne-price", format!("bond {} at rate {} (≥ threshold) minted {} ≠ {}", pay, qpre[0], minted, nofee)));
-                        out.push(v("C05", "fee-above-threshold", format!("bond {} at rate {} (≥ threshold {}) minted {} ≠ {}", pay, qpre[0], pre.thr, minted, nofee)));
+                    if tb(&qpre) >= pre.thr && minted != nofee {
+                        out.push(v("C03", "bond-minted-ne-price", format!("bond {} at rate {} (≥ threshold) minted {} ≠ {}", pay, tb(&qpre), minted, nofee)));
+                        out.push(v("C05", "fee-above-threshold", format!("bond {} at rate {} (≥ threshold {}) minted {} ≠ {}", pay, tb(&qpre), pre.thr, minted, nofee)));
                     }
                     let maxfee = floor_mul(nofee, pre.fee);
                     if minted + maxfee < nofee {
@@ -838,9 +843,9 @@ pub fn check_step(cx: &StepCtx) -> Vec<Violation> {
                 }
                 "hub.bondst" => {
                     let minted = post.bal_s.get(sender).unwrap_or(&0) - pre.bal_s.get(sender).unwrap_or(&0);
-                    let want = mul_floor(pay, D, qpre[1]);
+                    let want = mul_floor(pay, D, ts(&qpre));
                     if minted != want {
-                        out.push(v("C03", "bondst-minted-ne-price", format!("bondst {} at rate {} minted {} ≠ {}", pay, qpre[1], minted, want)));
+                        out.push(v("C03", "bondst-minted-ne-price", format!("bondst {} at rate {} minted {} ≠ {}", pay, ts(&qpre), minted, want)));
                     }
                 }
                 "hub.bondrw" => {
@@ -854,31 +859,31 @@ pub fn check_step(cx: &StepCtx) -> Vec<Violation> {
         }
         if let (Op::Tx { sender, target, call: Call::Tok(TokMsg::Send(_, a, Hook::Convert)), .. }, Some(qpre)) = (op, pre.q) {
             if *target == STSEI {
-                let value = floor_mul(*a, qpre[1]);
-                let nofee = mul_floor(value, D, qpre[0]);
+                let value = floor_mul(*a, ts(&qpre));
+                let nofee = mul_floor(value, D, tb(&qpre));
                 let minted = post.bal_b.get(sender).unwrap_or(&0) - pre.bal_b.get(sender).unwrap_or(&0);
                 if minted > nofee {
                     out.push(v("C03", "convert-minted-above-price", format!("convert {} stSei minted {} bSei > {}", a, minted, nofee)));
                 }
-                if qpre[0] >= pre.thr && minted != nofee {
+                if tb(&qpre) >= pre.thr && minted != nofee {
                     out.push(v("C03", "convert-minted-ne-price", format!("convert {} stSei minted {} bSei ≠ {}", a, minted, nofee)));
                     if minted < nofee {
-                        out.push(v("C05", "fee-above-threshold", format!("convert {} stSei at bSei rate {} ≥ threshold {} minted {} bSei < {}", a, qpre[0], pre.thr, minted, nofee)));
+                        out.push(v("C05", "fee-above-threshold", format!("convert {} stSei at bSei rate {} ≥ threshold {} minted {} bSei < {}", a, tb(&qpre), pre.thr, minted, nofee)));
                     }
                 }
                 if minted + floor_mul(nofee, pre.fee) < nofee {
                     out.push(v("C05", "fee-above-max", format!("convert st→b: fee {} > max", nofee - minted)));
                 }
             } else if *target == BSEI {
-                let nofee = mul_floor(floor_mul(*a, qpre[0]), D, qpre[1]);
+                let nofee = mul_floor(floor_mul(*a, tb(&qpre)), D, ts(&qpre));
                 let minted = post.bal_s.get(sender).unwrap_or(&0) - pre.bal_s.get(sender).unwrap_or(&0);
                 if minted > nofee {
                     out.push(v("C03", "convert-minted-above-price", format!("convert {} bSei minted {} stSei > {}", a, minted, nofee)));
                 }
-                if qpre[0] >= pre.thr && minted != nofee {
+                if tb(&qpre) >= pre.thr && minted != nofee {
                     out.push(v("C03", "convert-minted-ne-price", format!("convert {} bSei minted {} stSei ≠ {}", a, minted, nofee)));
                     if minted < nofee {
-                        out.push(v("C05", "fee-above-threshold", format!("convert {} bSei at rate {} ≥ threshold {} minted {} stSei < {}", a, qpre[0], pre.thr, minted, nofee)));
+                        out.push(v("C05", "fee-above-threshold", format!("convert {} bSei at rate {} ≥ threshold {} minted {} stSei < {}", a, tb(&qpre), pre.thr, minted, nofee)));
                     }
                 }
             }
@@ -1580,9 +1585,15 @@ fn c09_deep(cx: &StepCtx, out: &mut Vec<Violation>) {
         // (by the chain's clock, from the history of operations) must be withdrawable in full:
         // nothing was slashed on this clone, so a claim worth >= 1 unit more than rounding must
         // be accepted and paid.
-        if let Some(gc) = cx.ghost_completion {
+        if let Some(gc0) = cx.ghost_completion {
             let c1 = c2.clone();
             let s1 = snap(&c1);
+            // a batch closed on this clone just now completes one unbonding time from the clone's clock
+            let mut gc_local = gc0.clone();
+            for h in s1.hist.iter() {
+                gc_local.entry(h.id).or_insert(c1.time + c1.unbonding_time);
+            }
+            let gc = &gc_local;
             let oldest = rs.iter().filter_map(|(b, _, _)| s1.hist.iter().find(|h| h.id == *b && !h.released).and_then(|_| gc.get(b).map(|t| (*t, *b)))).min();
             if let (Some((t_first, _)), true) = (oldest, s1.unbonding == c1.unbonding_time && !s1.paused) {
                 let mut c1 = c1;
